@@ -43,14 +43,27 @@ TEXT = {
                    "(schedule exploration of the real handlers with an id-uniqueness oracle, wire scenario `types`).",
              note=_std_note + " uint32 wrap-around after 2^32-1 allocations is outside the model (ids are unbounded naturals).", technique=_tech),
  'C12': dict(level="Refinement of the component store to a partial map: add/update/delete/list/entity-removal theorems (C12_*) state the exact effect on the set of "
-                   "components and the refusal codes, for every session state.",
+                   "components and the refusal codes, for every session state. Schedule clause, proved on a small concurrent model (Model/Attach.lean with duplicate refusal, one "
+                   "transition per critical section): C12_conc_component_never_outlives_entity - for every interleaving of an entity's removal (RemoveEntity, then DeleteByEntityID) with any "
+                   "number of component adds (EntityByID, Add, EntityByID again, Delete) nothing stays for an entity that is gone; C12_old_order_keeps_a_stale_component and "
+                   "C12_reorder_alone_is_not_enough are the kernel-checked interleavings of the code before the repair F24. Tied to the code by the skeleton facts of HandleEntityComponentAdd, "
+                   "HandleEntityDelete, leaveSession and by the exploration of the real handlers (blocks that set attachments against an entity's removal).",
              note=_std_note, technique=_tech),
  'C13': dict(level="C13_add_notify/_delete_notify/_update_notify give the exact recipients of component notifications as a function of the subscription set; "
-                   "C13_subscribe/_unsubscribe/_leave_unsubscribes give the exact evolution of that set.",
+                   "C13_subscribe/_unsubscribe/_leave_unsubscribes give the exact evolution of that set. Schedule clause, proved on a small concurrent model (Model/Notify.lean: Notify - read the "
+                   "subscribers and relay, one critical section under the subscription read lock -, Subscribe, Unsubscribe, the unsubscribe answer): for every interleaving and any number of "
+                   "participants C13_conc_nothing_after_unsubscribing, C13_conc_never_own_update, C13_conc_only_subscribers, C13_conc_subscriber_gets_each_update_once (exactly the others' "
+                   "updates, in the order they were made); C13_split_notify_reaches_an_unsubscribed_member is the kernel-checked interleaving of a Notify that relays after releasing the lock. "
+                   "Tied to the code by the lock facts of Notify / Subscribe / Unsubscribe / BroadcastTo and by the exploration of the real handlers (after-unsubscribe oracle); a subscriber "
+                   "lagging behind a backlog is exercised over real sockets (wire scenario order).",
              note=_std_note, technique=_tech),
  'C16': dict(level="C16_accept_iff (an action is accepted iff named, stamped, for an existing entity and not older than the stored one), C16_older_refused, "
                    "C16_accepted_replaces, C16_monotone (the stored timestamp never decreases), C16_asset_single (one asset per entity, fresh instance id), "
-                   "C16_*_needs_entity, C16_newcomer, and C16_invariant (uniqueness of (entity,name) and of per-entity assets in every reachable state).",
+                   "C16_*_needs_entity, C16_newcomer, and C16_invariant (uniqueness of (entity,name) and of per-entity assets in every reachable state). Schedule clause (Props/C16Conc): the "
+                   "comparison with the stored action and the storing are one critical section (State.SetEntityActionIfLatest), so for every order in which the critical sections of any number of "
+                   "concurrent requests run the action kept is one of those sent with no later one among them (C16_conc_keeps_latest) and its timestamp does not depend on the order "
+                   "(C16_conc_kept_timestamp_order_independent); C16_old_split_keeps_the_older_action is the kernel-checked interleaving of the code before the repair F25. Tied to the code by the "
+                   "lock / call / field facts of the vikja state and handler and by the exploration of the real handlers (oracle older-action-kept on the module state after the block).",
              note=_std_note + " Timestamps are compared as (seconds, nanos) pairs, i.e. for protobuf-normalised timestamps; Go's time.Unix normalisation of out-of-range nanos is not modelled.", technique=_tech),
  'C17': dict(level="C17_filter: for every list of flag strings F (all 1024 subsets and any unknown names), every history and every starting state, the run under F "
                    "reaches the same server state as the flag-free run and delivers exactly its deliveries minus the message classes F names (induction over the "
@@ -88,7 +101,10 @@ TEXT = {
                    "it is recorded as a known finding, not repaired (protocol change). The schedule-quantified clause: one piece is proved on a small concurrent model (Model/Attach.lean: "
                    "C01_conc_action_never_outlives_entity for every interleaving of an entity's removal with any number of action requests; C01_old_order_keeps_a_stale_action is the kernel-checked "
                    "interleaving of the code before the repair F21; Model/Handover.lean: C01_conc_newcomer_consistent - every interleaving of a join with the departure of an entity's owner leaves the newcomer "
-                   "without the entity and without its action, decided over the complete table of interleavings - and C01_old_handover_leaves_a_stale_action for the code before F23); the rest is explored on the real handlers, not proved: every interleaving with at most two preemptions of 2-3 concurrent requests "
+                   "without the entity and without its action, decided over the complete table of interleavings - and C01_old_handover_leaves_a_stale_action for the code before F23). One part of the schedule clause is FALSE of the code and recorded as finding F26: two participants writing the same "
+                   "component or entity action at the same time are relayed in an order that can differ from the order the writes were applied in (Model/Writers.lean: C01_concurrent_writers_diverge "
+                   "is the kernel-checked interleaving; C01_conc_atomic_writes_converge shows that applying and relaying in one critical section would converge); the check prints KNOWN-FINDING for "
+                   "exactly that situation. The rest is explored on the real handlers, not proved: every interleaving with at most two preemptions of 2-3 concurrent requests "
                    "at lock granularity, judged by serial-order explanation on the model or else by convergence of every member's view with what later newcomers are handed.",
              note=_std_note + " The induction from the per-event theorems to 'at every quiescent point' is the view monitor's job on recorded traces (every member's accumulated view is compared with what each newcomer is handed).",
              technique=_tech + " + per-member view replica evaluated on real traces"),
@@ -111,18 +127,24 @@ TEXT = {
                    "queue) and proved for every schedule of client behaviour and goroutine interleaving: C08_once (handleDisconnect runs at most once, exactly once when Handle returns, both goroutines gone), "
                    "C08_never_stuck / C08_cause_taken (reporting a cause never blocks the main loop, a pending cause can always be taken), C08_send_progress (a full send queue can always be relieved by the "
                    "sender goroutine), C08_shutdown_progress + C08_shutdown_decreases (after a cause is taken some goroutine can always move without the client and every move decreases a measure: the shutdown "
-                   "ends with Handle returned); C08_old_code_wedges is the kernel-checked witness of finding F6 on the original blocking report. The model is tied to handler.go by regenerated facts "
-                   "(capacities, disconnect is a non-blocking send, skeletons and defers) and by go/cmd/wire. NOT proved, measured by go/cmd/wire on the real server over real sockets: that no input "
-                   "panics a handler (every message type with fields absent / non-finite / at bounds, garbage frames), process survival, goroutine and gauge end state, witnesses in the same and in "
-                   "another session served throughout, idle timeout, stalls. The OS, net/http and memory are outside the model.",
+                   "ends with Handle returned), C08_cause_handled (a taken cause is handled to the end: leaving never waits for the session's frame worker - the connection's own frame goroutine of the repair "
+                   "F15 is in the model); C08_old_code_wedges and C08_old_frame_lock_wedges are the kernel-checked witnesses of findings F6 and F15 on the code as it was. The model is tied to handler.go by "
+                   "regenerated facts (capacities, disconnect and handleFrame are non-blocking sends, skeletons and defers) and by go/cmd/wire. NOT proved, measured on the real code: that no input "
+                   "panics a handler (go/cmd/wire over real sockets: every message type with fields absent / non-finite / at bounds, garbage frames; go/cmd/drive: generated histories; go/cmd/grid: the "
+                   "ground-plane index on planes and rays that hug the grid's border to one float32 step - finding F27), process survival, goroutine and gauge end state, witnesses in the same and in "
+                   "another session served throughout, idle timeout, stalls, floods behind a stalled reader, and that no receipt stops the receipt forwarder for the others (go/cmd/receipts). "
+                   "The OS, net/http and memory are outside the model.",
              note=_std_note + " Timing-dependent: the wire scenarios use generous limits (seconds) relative to a 400 ms idle timeout.",
              technique=_tech + " + wire-level scenarios on the real server (go/cmd/wire)"),
  'C09': dict(level="PARTIAL. Decided in Lean's kernel from the facts the translator regenerates from the current source on every run (Model/Locks.lean over Gen/Facts.lean): C09_lockset (every method of a "
                    "shared structure that touches a guarded field takes the mutex that guards it; guard map and three exemptions spelled out), C09_grid_locked (every dagaz handler that reaches the "
-                   "session's grid holds the state's mutex), C09_nesting / C09_lock_order (the only nested acquisition is subscriptionMutex then mutex in the component store: no lock-order cycle). "
+                   "session's grid holds the state's mutex), C09_writes_hold_the_write_lock (every method that assigns to, increments or deletes from a guarded field - directly, through an index, a "
+                   "sub-field or a local bound to it - holds the guarding mutex in write mode), C09_grid_readers_write_nothing (the grid methods reached from handlers that hold the state's mutex in "
+                   "read mode write no field of the grid), C09_no_reentrant, C09_nesting / C09_lock_order (the only nested acquisition is subscriptionMutex then mutex in the component store: no lock-order cycle). "
                    "These are statements about the program text at method granularity, not about schedules. The schedule part is measured, not proved: randomised real-thread executions of the real "
                    "server (4-16 clients, shared sessions, all modules, production decorators, real sockets) built with -race, no report may involve a hagall package, with a completion watchdog "
-                   "(deadlock) and end-state checks. The exhaustive lock-granularity interleavings the property also quantifies over are NOT built.",
+                   "(deadlock) and end-state checks, on room-sized and on venue-sized ground-plane grids; the real id sources under 16 goroutines. Lock-granularity interleavings (every schedule with at "
+                   "most two preemptions of 2-3 concurrent requests of the real handlers, deadlock detection) are explored, not proved.",
              note=_std_note + " Sends made while a lock is held (Session.Broadcast, Notify) are outside the static theorems; the stalled-reader wedge they enabled is fixed (C08) and exercised by the wire scenarios.",
              technique="Lean 4 theorems decided by kernel evaluation over facts regenerated from the source + real-thread executions under the Go race detector"),
  'C11': dict(level="C11_order: for every interleaving of receives, frame ticks and consumptions on a connection's scheduler (the model of hagall-common's coalescing map + FIFO, "
@@ -138,7 +160,9 @@ TEXT = {
  'C20': dict(level="Index completeness proved for the cell bookkeeping the grid code performs (Model/GridIndex.lean: the append loops, the four edge loops of mergeQuads, the slice "
                    "growth of ExpandToFitPoint, GetRegion's cell walk), for all grids, spans and operation sequences: C20_register_complete, C20_reRegister_complete (whatever the old "
                    "and new span, the moved plane ends registered in every cell of the new one; other planes untouched), C20_grow_keeps / _invents_nothing, C20_region_exactly_once, and "
-                   "C20_index_complete / C20_region_returns_each_once over every history of appends, moves and growths. The spans come out of float32 arithmetic, which Lean's kernel "
+                   "C20_index_complete / C20_region_returns_each_once over every history of appends, moves and growths. Totality (Props/C20Total): with the far cells clamped inside the grid "
+                   "(InsertQuad's append loops, mergeQuads' clampCell - finding F27) the append and merge loops index no cell that does not exist and keep the array a rectangle, and growth "
+                   "keeps it one (C20_register_never_panics, C20_reRegister_never_panics, C20_grow_rect; C20_unclamped_far_cell_panics is the kernel-checked run of the code before the repair). The spans come out of float32 arithmetic, which Lean's kernel "
                    "cannot reason about: the theorems' hypothesis on it (a growth shifts every span by the cells added, a move starts from the registered span) is checked on every "
                    "explored history by ghost state in the float32 model (Model/Grid.lean), which itself is compared bit for bit with modules/dagaz after every operation. "
                    "Footprint-vs-cell completeness in exact arithmetic, the centre ray, bounds and plane count are monitors on the real grid (measured, not proved). "
